@@ -155,10 +155,56 @@ def r28a(ctx, run):
     ok_folder = any(is_join_chain(c, lambda b: canon(b) == "self.mod_dir", [var("file"), lit("src")], False) for c in chain_of("mod_folder_path"))
     ok_file = any(is_join_chain(c, lambda b: canon(b) == "mod_folder_path", [lit("mod.capy")], True) for c in chain_of("mod_file_path"))
     run.check(ok_folder and ok_file, f.site(), "#mod resolves to <mod_dir>/<m>/src/mod.capy", F, "mod-path", f.file, f.ln, "#mod must resolve to <mod_dir>/<m>/src/mod.capy")
-    ok_imp = any(is_join_chain(c, lambda b: b.get("k") == "call" and "current_dir" in canon(b), [var("file_name"), lit(".."), var("file")], True)
-                 for c in chain_of("file"))
-    run.check(ok_imp, f.site(), "#import resolves relative to the importing file's directory", F, "import-path",
-              f.file, f.ln, "#import must resolve as cwd/<importing file>/../<p>, cleaned")
+    # the path that is tested with is_file() in the #import branch, with every local replaced by what it was initialised with (whatever the locals are
+    # called): the joins, in order, must be  current_dir / <importing file> / ".." / <the import string>, cleaned
+    all_lets = sorted(((x["ln"], x["p"]["n"], x["init"]) for x in walk(f.body) if x.get("k") == "local" and x.get("init") is not None and x["p"].get("k") == "p_ident"),
+                      key=lambda t: t[0])
+
+    def resolve(e, at_line, depth=0):
+        """components in join order, innermost first; ('clean',) markers for clean()"""
+        if depth > 12:
+            return [("?",)]
+        k = e.get("k")
+        if k in ("ref", "paren", "un", "cast", "try"):
+            return resolve(e["e"], at_line, depth + 1)
+        if k == "mcall":
+            if e["m"] == "join" and len(e["a"]) == 1:
+                return resolve(e["r"], at_line, depth + 1) + resolve(e["a"][0], at_line, depth + 1)
+            if e["m"] == "clean" and not e["a"]:
+                return resolve(e["r"], at_line, depth + 1) + [("clean",)]
+            if e["m"] in ("unwrap", "expect", "to_path_buf", "as_path", "clone", "to_owned", "as_ref", "to_string", "as_str"):
+                return resolve(e["r"], at_line, depth + 1)
+            return [("?", canon(e)[:40])]
+        if k == "call":
+            fn_ = canon(e["f"])
+            if fn_.endswith("current_dir"):
+                return [("cwd",)]
+            if fn_.rsplit("::", 1)[-1] in ("new", "from") and len(e["a"]) == 1:
+                return resolve(e["a"][0], at_line, depth + 1)
+            return [("?", fn_[:40])]
+        if k == "lit":
+            v = lit_str(e)
+            return [("lit", v)] if v is not None else [("?",)]
+        if k == "field" and canon(e) == "self.file_name":
+            return [("importer",)]
+        if k == "path":
+            prev = [t for t in all_lets if t[1] == e["p"] and t[0] < at_line]
+            if prev:
+                ln_, _, init = prev[-1]
+                return resolve(init, ln_, depth + 1)
+            return [("import-string", e["p"])]
+        if k in ("match", "if", "block"):
+            # the text taken out of the directive's string-literal argument
+            return [("import-string", "<extracted>")]
+        return [("?", canon(e)[:40])]
+    tested = [c for c in synq.mcalls(f.body, "is_file") if not any(x is c for b in walk(f.body) if b.get("k") == "if" and canon(b["c"]) == "is_mod" for x in walk(b["t"]))]
+    if not tested:
+        raise LookupError("the is_file() test of the #import branch")
+    comps = resolve(tested[-1]["r"], tested[-1]["ln"] + 1)
+    kinds = [c[0] if c[0] != "lit" else "lit:" + c[1] for c in comps]
+    ok_imp = kinds[:3] == ["cwd", "importer", "lit:.."] and len(kinds) == 5 and kinds[3] in ("import-string",) and kinds[4] == "clean"
+    run.check(ok_imp, f.site(), "#import resolves relative to the importing file's directory: %s" % " / ".join(kinds), F, "import-path",
+              f.file, f.ln, "#import must resolve as current_dir / <importing file> / .. / <p>, cleaned; the tested path is built as %s" % " / ".join(kinds))
     # what is registered is what was checked
     for ins, var, which in ((mod_ins[0], "mod_file_path", "#mod"), (imp_ins[0], "file", "#import")):
         arg = canon(ins["a"][0])
